@@ -11,6 +11,7 @@ refreshed ``.zoq`` pages recompile to exactly the selected notes.
 from __future__ import annotations
 
 import datetime as dt
+import re
 
 from zmon import harness
 from zmon.gen import page as pg
@@ -93,7 +94,11 @@ def check_note(acc: Acc, n, e, it, case: dict) -> None:
         return
     ms = c.page.notes
     if len(ms) != 1:
-        acc.violation(f"to_string() output compiles to {len(ms)} notes: {s!r}", case, cls="to_string output is not exactly one note")
+        # known mechanism with the shortest possible tail: once the body's leading Pn word has taken the place of the
+        # omitted priority, nothing the lexer knows is left ('~ P9 P7 \u2014' -> '~ P7 \u2014'), i.e. an item without body
+        rest = n.body.split(" ", 1)[1] if " " in n.body else ""
+        fin = FINDING_DONE_PN if (len(ms) == 0 and done_pn_trigger(it) and s == f"{pc.note_kind(n)} {n.body}\n" and not re.search(r"[!-~]", rest)) else None
+        acc.violation(f"to_string() output compiles to {len(ms)} notes: {s!r}", case, cls="to_string output is not exactly one note", finding=fin)
         return
     m = ms[0]
     finding = FINDING_DONE_PN if done_pn_trigger(it) else None
